@@ -56,7 +56,8 @@ class C07(Check):
         yield from fam(2, spaces.U(2, 0, 8), (1, 2), 'all', D)
         yield from fam(3, spaces.U(3, 0, 4), (1, 2, 3), 'all', configs.DEFAULTS + P[:3] if q else D)
         batch = [{'rule': 'wigm-prf-batch'}, {'rule': 'cfer-batch'}, {'rule': 'mpls'}, {'rule': 'meek'}, {'rule': 'warren', 'arithmetic': 'fixed', 'precision': 4}]
-        yield from fam(4, spaces.W(4, 2, 3, (1, 2)), (1, 2, 3), 'idrev' if q else 'all', configs.DEFAULTS if q else D)
+        yield from fam(4, spaces.W(4, 2, 3, (1, 2)), (1, 2, 3), 'idrev' if q else 'all', (configs.DEFAULTS + P[4:]) if q else D)
+        yield from fam(5, spaces.BPS(5), (3, 4), 'id', batch[:2])
         yield from fam(4, spaces.BP(4, 3, 1, (3, 4, 5, 6)), (1, 2, 3), 'idrev', batch)
         yield from fam(4, spaces.BU(4), (1, 2, 3), 'idrev', batch)
         yield from fam(5, spaces.W(5, 2, 3, (1, 2)), (1, 2), 'idrev', [{'rule': 'scotland'}, {'rule': 'wigm-prf-batch'}])
@@ -74,6 +75,8 @@ class C07(Check):
     @staticmethod
     def orders(n, which):
         ident = tuple(range(1, n + 1))
+        if which == 'id':
+            return [ident]
         if which == 'all':
             return list(itertools.permutations(ident))
         if which == 'idrev':
